@@ -178,6 +178,41 @@ fn reply_failure_cases(prop: &str, rt: &tokio::runtime::Runtime, st: &mut Stats,
     } } } } }
 }
 
+/// tokio: a read() dropped while its keep-alive reply is half written, then a caller write() that is itself dropped at its first not-ready
+/// poll (a select! branch that loses), then a read() that runs to the end: the keep-alive is handed over only after its whole reply - the reply
+/// is connection state, not state of whichever future happens to be flushing it.
+pub fn abandoned_write_cases(prop: &str, rt: &tokio::runtime::Runtime, st: &mut Stats) {
+    use std::task::Poll;
+    for compressed in [true, false] { for taken in 1..4usize { for pends in [1usize, 3] {
+        st.evaluations += 1; st.bump("a dropped read, then a dropped write, then a read");
+        let ka = raw_frame(compressed, 3, 0, &[0]);
+        let fr = Frames::new(compressed, vec![ka.clone()]); let _idx = RepIndex::new(&fr);
+        let mut ws: Vec<WEv> = vec![WEv::Accept(taken - 1)]; for _ in 0..pends + 1 { ws.push(WEv::Pending); }
+        let t = Transport::new(vec![REv::Data(fr.stream()), REv::Pend, REv::Eof], ws);
+        let id = format!("abandonedwrite {} {taken} {pends}", mode_tag(compressed));
+        let r = guard(|| rt.block_on(async {
+            let mut f = AFramed::new(Box::new(t.clone()), Codec::new(mode_of(compressed)));
+            // 1. read: polled until it has pended `pends` times, then dropped
+            { let mut fut = Box::pin(f.read()); let mut n = 0; loop { match futures_util::poll!(fut.as_mut()) { Poll::Ready(_) => break, Poll::Pending => { n += 1; if n >= pends { break; } } } } }
+            // 2. a write polled once and dropped when it is not ready
+            { let p = Packet::Tiny(insim::insim::Tiny { reqi: insim::identifiers::RequestId(9), subt: insim::insim::TinyType::Ping }); let mut fut = Box::pin(f.write(p)); let _ = futures_util::poll!(fut.as_mut()); }
+            let before = t.0.lock().unwrap().all_written.clone();
+            // 3. the transport is ready again: read to the end
+            t.0.lock().unwrap().wscript.clear();
+            let got = tokio::time::timeout(std::time::Duration::from_secs(5), f.read()).await;
+            let after = t.0.lock().unwrap().all_written.clone();
+            (before, format!("{:?}", got).chars().take(60).collect::<String>(), matches!(got, Ok(Ok(ref p)) if p.maybe_pong().is_some()), after)
+        }));
+        match r {
+            None => st.fail(format!("[{prop} tokio] panic in the dropped-read / dropped-write sequence"), id),
+            Some((before, shown, handed, after)) => {
+                // whatever the dropped write managed to send of its own frame, the reply must be complete and first on the wire when the keep-alive is handed over
+                if handed && (after.len() < 4 || after[..4] != ka[..]) { st.fail(format!("[{prop} tokio] a read() dropped after {taken} byte(s) of the reply, a write() dropped at its first poll, then read(): the keep-alive is handed over ({shown}) while the transport holds {} (before the last read: {})", hex(&after), hex(&before)), id); }
+            },
+        }
+    } } }
+}
+
 // ---------------------------------------------------------------- C07
 pub fn run_c07(a: &Args) {
     if let Some(r) = &a.replay { std::process::exit(replay_session("C07", r)); }
@@ -252,6 +287,7 @@ pub fn run_c07(a: &Args) {
         }
     }
     reply_failure_cases("C07", &run.rt, &mut st, &mut out);
+    abandoned_write_cases("C07", &run.rt, &mut st);
     // 4c. transient READ errors (would-block, interrupted, a read time-out) between and inside the frames of keep-alive-rich sessions: every
     //     keep-alive is still answered exactly once and nothing else is (whatever a failed read leaves in the receive buffer)
     for compressed in [true, false] {
@@ -392,6 +428,8 @@ pub fn run_c09(a: &Args) {
     st.rule = "sessions on the real blocking and tokio Framed: Ver frames with every insimver 0..255, verification on and off, alone and inside histories of other kinds; every other kind with verification on; distinct sessions counted (each run on both connections)".into();
     st.sample("session U 1 f:<ver insimver=8>:V8:0 | D.. Z -> BV8 DC".into());
     { let c1 = crate::conv::sync_conversations("C09", a, &mut rng, "ver", &mut st, &mut out); st.distinct_nontrivial += c1.distinct.len() as u64; }
+    // the gate over real UDP sockets: long sessions of large datagrams holding version packets (half of the sessions verify)
+    crate::c08::keepalive_sessions("C09", a, &mut st);
     crate::net::report_unconsumed("C09", &mut st);
     out.finish(&st);
 }
